@@ -88,6 +88,25 @@ theorem include_isolated (w : World) (sk : DSkip) (c : Ctx) (b : Bindings) (body
     (runStmt w sk c b (.unit body)).1 = (runStmts w sk {} b body).1 := by
   simp [runStmt]
 
+/-- One spelling, two files, two objects: when the same selector resolves to different objects in two
+    files (each file binds the name through its own imports), both bindings are accepted and each object
+    keeps its own value — what the first file configured is not refused, renamed or overwritten by the
+    second (D31: the implementation used to refuse the second object). -/
+theorem same_spelling_other_file (w : World) (sk : DSkip) (c1 c2 : Ctx) (b : Bindings) (s : List String)
+    (o1 o2 : Nat) (arg : String) (v1 v2 : Int) (hd1 : c1.dyn = true) (hd2 : c2.dyn = true)
+    (h1 : resolve w c1 s = .ok o1) (h2 : resolve w c2 s = .ok o2) (hne : o1 ≠ o2)
+    (hp1 : ((lookup o1 w.params).getD []).contains arg = true)
+    (hp2 : ((lookup o2 w.params).getD []).contains arg = true) :
+    (runStmt w sk c1 b (.bind s arg v1)).2.2 = none ∧
+    (runStmt w sk c2 (runStmt w sk c1 b (.bind s arg v1)).1 (.bind s arg v2)).2.2 = none ∧
+    lookup arg ((lookup o1 (runStmt w sk c2 (runStmt w sk c1 b (.bind s arg v1)).1 (.bind s arg v2)).1).getD [])
+      = some v1 ∧
+    lookup arg ((lookup o2 (runStmt w sk c2 (runStmt w sk c1 b (.bind s arg v1)).1 (.bind s arg v2)).1).getD [])
+      = some v2 := by
+  simp only [runStmt, shouldSkip, known, hd1, hd2, h1, h2, Bool.true_and, Bool.not_true, Bool.false_and,
+    Bool.false_eq_true, if_false, hp1, hp2, if_true, bindObj, lookup_set, hne, Ne.symm hne]
+  simp [lookup_set]
+
 /-- non-vacuity: two spellings, one object -/
 example :
     let w : World := { modules := [(["p"], 1), (["p", "m"], 2)], attrs := [(1, [("m", 2)]), (2, [("f", 3)])],
@@ -97,5 +116,17 @@ example :
     resolve w c ["q", "f"] = .error .nameError ∧ resolve w c ["al", "zz"] = .error .attributeError := by
   intro w c
   exact ⟨rfl, rfl, rfl, rfl⟩
+
+/-- non-vacuity of `same_spelling_other_file`: `m1.shared` is object 3 in one file and object 4 in the other -/
+example :
+    let w : World := { modules := [(["p", "alt"], 1), (["p", "sub"], 2)], attrs := [(1, [("shared", 3)]), (2, [("shared", 4)])],
+                       params := [(3, ["a"]), (4, ["a"])] }
+    let c1 : Ctx := { dyn := true, symtab := [("m1", 1)] }
+    let c2 : Ctx := { dyn := true, symtab := [("m1", 2)] }
+    resolve w c1 ["m1", "shared"] = .ok 3 ∧ resolve w c2 ["m1", "shared"] = .ok 4 ∧
+    (runStmts w .no c2 (runStmts w .no c1 [] [.bind ["m1", "shared"] "a" 91]).1
+      [.bind ["m1", "shared"] "a" 66]) = ([(3, [("a", 91)]), (4, [("a", 66)])], none) := by
+  intro w c1 c2
+  exact ⟨rfl, rfl, by decide⟩
 
 end Gin.C19
